@@ -190,6 +190,12 @@ def rule_pass(ctx, M, u):
             for b, k, payload, t in rv:
                 if t[0] == "call" and t[3] == c.block:
                     good.append(b)          # the poll result itself is returned
+                    if b == c.block and bi._path_from_shared_result(("phi", c.site.dest_local), c.site) == []:
+                        # `let polled = match i { K => child_K.poll_next(cx), .. }; .. return polled`: the alternative
+                        # is located at its definition; the blocks that hand the shared local back are the returns
+                        for x in bi.assigns_to_return():
+                            if x[2].get("k") == "use" and bi.T.of_rvalue(x[2], 0) == ("phi", c.site.dest_local):
+                                good.append(x[0])
                 elif k == kind and kind == "Pending":
                     good.append(b)
                 elif k == kind and payload is not None and flow.is_payload(payload, c.block, *labs):
